@@ -377,21 +377,21 @@ def gaps_of(state):
     return [it for it in flat(state.prf) if it.rule == "sorry"]
 
 
-def fact_for(state, goal_it, pred):
+def fact_for(state, goal_it, pred, gaps_too=False):
     """id of the first line visible from the goal that satisfies pred"""
     for it in flat(state.prf):
-        if it.th is not None and it.rule not in ("sorry", "variable") and goal_it.id.can_depend_on(it.id) and pred(it):
+        if it.th is not None and it.rule != "variable" and (gaps_too or it.rule != "sorry") and goal_it.id.can_depend_on(it.id) and pred(it):
             return str(it.id)
     return None
 
 
-def on_gap(k, method_name, facts=(), **params):
+def on_gap(k, method_name, facts=(), allow_gap_facts=False, **params):
     """step maker: method on the k-th open gap (textual order); facts = predicates on lines selecting the cited facts"""
     def mk(state):
         gs = gaps_of(state)
         if k >= len(gs):
             return None
-        fids = [fact_for(state, gs[k], pr) for pr in facts]
+        fids = [fact_for(state, gs[k], pr, allow_gap_facts) for pr in facts]
         if any(f is None for f in fids):
             return None
         st = {"method_name": method_name, "goal_id": str(gs[k].id), "fact_ids": fids}
@@ -517,28 +517,169 @@ def gen_walk(rnd, n):
             "script": [(on_gap(0, "introduction", names="a1, a2"), None)] if rnd.random() < 0.5 else [], "shape_ok": lambda st: True}
 
 
+def nested_exists(bounds, body):
+    t = body
+    for b in reversed(bounds):
+        t = "?%s. %s" % (b, t)
+    return t
+
+
+def gen_exists_nested(rnd, n):
+    """exists_elim with 1..d names on an existential fact nested d deep (d = 1..3), optionally a second exists_elim on what is
+    left; variants put other lines between the goal and the closing intros first: `between` = cut an intermediate goal and
+    turn the LATER goal into a subproof (introduction) before eliminating on the cut goal; `two-goals` = eliminate on the later
+    goal first (its variable / assume lines then sit after the cut goal), then on the cut goal"""
+    d = rnd.choice([1, 2, 2, 3])
+    k = rnd.randint(1, d)
+    bs = rnd.sample(BOUND, d)
+    tys = [rnd.choice(ATOMS[:3]) for _ in range(d)]
+    vars_ = {"P": " => ".join(tys + ["bool"]), "R": "bool", "P2": "%s => bool" % tys[0]}
+    ex = nested_exists(bs, "P " + " ".join(bs))
+    ex2 = "?%s. P2 %s" % (bs[0], bs[0])
+    variant = rnd.choice(["plain", "plain", "between", "two-goals"])
+    w = [b for b in BOUND if b not in bs][0]
+    names = ["e%d" % i for i in range(d)]
+    script = []
+    if variant == "plain":
+        prop = "(%s) --> R" % ex
+        script.append((on_gap(0, "exists_elim", facts=[prop_is(ex)], names=", ".join(names[:k])), None))
+        if k < d:
+            rest = nested_exists(bs[k:], "P " + " ".join(names[:k] + bs[k:]))
+            script.append((on_gap(0, "exists_elim", facts=[prop_is(rest)], names=", ".join(names[k:])), None))
+    elif variant == "between":
+        prop = "(%s) --> (!%s::%s. R)" % (ex, w, tys[0])
+        script.append((on_gap(0, "cut", goal="R"), None))
+        script.append((on_gap(1, "introduction", names=w), None))
+        script.append((on_gap(0, "exists_elim", facts=[prop_is(ex)], names=", ".join(names[:k])), None))
+    else:
+        prop = "(%s) --> (%s) --> R" % (ex, ex2)
+        script.append((on_gap(0, "cut", goal="R"), None))
+        script.append((on_gap(1, "exists_elim", facts=[prop_is(ex2)], names="f0"), None))
+        script.append((on_gap(0, "exists_elim", facts=[prop_is(ex)], names=", ".join(names[:k])), None))
+
+    def ok(state):
+        return sum(1 for it in flat(state.prf) if it.rule == "variable") >= (k if variant != "two-goals" else k + 1)
+    return {"name": "exists_nested_%d" % n, "shape": "exists-nested:%s:%s" % (variant, "multi" if k > 1 else "single"), "vars": vars_,
+            "prop": prop, "script": script, "shape_ok": ok}
+
+
+def gen_intro_known(rnd, n):
+    """introduction on a goal A --> B whose antecedent A is already the statement of an earlier visible line: a hypothesis-free
+    line (a cut, possibly proved since), a fact DERIVED from other assumptions, or an enclosing assumption"""
+    variant = rnd.choice(["free-cut", "free-proved", "derived", "assumed"])
+    if variant in ("free-cut", "free-proved"):
+        vars_ = {"A": "bool", "B": "bool", "C": "bool"}
+        L = rnd.choice(["A --> A", "A | ~A", "A --> B --> A"])
+        G = rnd.choice(["B | ~B", "C --> C", "B"])
+        prop = G if not G.startswith("C") else "B --> (C --> C)"
+        goal_txt = prop if not G.startswith("C") else "C --> C"
+        script = [(on_gap(0, "cut", goal=L), None), (on_gap(1, "cut", goal="(%s) --> %s" % (L, goal_txt)), None)]
+        if variant == "free-proved" and L != "A | ~A":
+            script.append((on_gap(0, "introduction", names=""), None))
+            script.append((on_gap(0, "introduction", names=""), None))   # the inner gap of the first one is closed: ordinal 0 is the second cut
+        else:
+            script.append((on_gap(1, "introduction", names=""), None))
+    elif variant == "derived":
+        vars_ = {"A": "bool", "C": "bool", "D": "bool"}
+        tail = rnd.choice(["A & C", "C & A", "A"])
+        prop = "C --> (C --> A) --> ((A --> %s) --> D) --> D" % tail
+        script = [(on_gap(0, "apply_fact", facts=[prop_is("C --> A"), prop_is("C")]), None),
+                  (on_gap(0, "apply_prev", facts=[prop_is("(A --> %s) --> D" % tail)]), None),
+                  (on_gap(0, "introduction", names=""), None)]
+    else:
+        vars_ = {"A": "bool", "B": "bool", "C": "bool"}
+        prop = "A --> ((A --> B) --> C) --> C"
+        script = [(on_gap(0, "cut", goal="A --> B"), None), (on_gap(0, "introduction", names=""), None)]
+    return {"name": "intro_known_%d" % n, "shape": "intro-known:" + variant, "vars": vars_, "prop": prop, "script": script,
+            "shape_ok": lambda st: any(it.rule == "subproof" for it in flat(st.prf))}
+
+
+def gen_redex_fact(rnd, n):
+    """a selected fact contains a beta-redex the user typed (as an assumption, or through a cut), and a forward step uses it"""
+    T = rnd.choice(ATOMS[:3])
+    x = rnd.choice(BOUND)
+    vars_ = {"P": "%s => bool" % T, "a": T, "B": "bool", "C": "bool"}
+    redex = "(%%%s. P %s) a" % (x, x)
+    shape, thm = rnd.choice([("%s | B", "force_disj_true1"), ("%s | ~B", "force_disj_true2"), ("%s & B", "conjD1"), ("B & %s", "conjD2")])
+    fact = shape % redex
+    other = {"force_disj_true1": "~B", "force_disj_true2": "B"}.get(thm)
+    via_cut = rnd.random() < 0.4
+    assums = ([] if via_cut else [fact]) + ([other] if other else [])
+    prop = " --> ".join(["(%s)" % a for a in assums] + ["P a"]) if assums else "P a"
+    script = []
+    if via_cut:
+        script.append((on_gap(0, "cut", goal=fact), None))
+    facts = [prop_is(fact)] + ([prop_is(other)] if other else [])
+    script.append((on_gap(1 if via_cut else 0, "apply_forward_step", facts=facts, theorem=thm, allow_gap_facts=True), None))
+    return {"name": "redex_fact_%d" % n, "shape": "redex-fact", "vars": vars_, "prop": prop, "script": script,
+            "shape_ok": lambda st: any(it.rule == "apply_theorem" for it in flat(st.prf))}
+
+
+def arith_expr(rnd, depth):
+    """(text, value) of a closed expression on nat: numerals, + * Suc and truncated subtraction"""
+    if depth == 0 or rnd.random() < 0.25:
+        v = rnd.randint(0, 6)
+        return str(v), v
+    op = rnd.choice(["+", "+", "*", "-", "-", "Suc"])
+    a, va = arith_expr(rnd, depth - 1)
+    if op == "Suc":
+        return "Suc (%s)" % a, va + 1
+    b, vb = arith_expr(rnd, depth - 1)
+    return "(%s %s %s)" % (a, op, b), {"+": va + vb, "*": va * vb, "-": max(va - vb, 0)}[op]
+
+
+def gen_closed_arith(rnd, n):
+    """closed equations on natural numbers (theory nat), true and false ones, with + * Suc and truncated subtraction"""
+    lhs, v = arith_expr(rnd, 2)
+    kind = rnd.choice(["value", "value", "expr", "false"])
+    if kind == "expr":
+        for _ in range(30):
+            rhs, v2 = arith_expr(rnd, 2)
+            if v2 == v:
+                break
+        else:
+            rhs = str(v)
+    else:
+        rhs = str(v if kind == "value" else v + 1)
+    import re
+    prop = "%s = %s" % (re.sub(r"\b(\d+)\b", r"(\1::nat)", lhs, count=1), rhs)      # the first numeral carries the type
+    return {"name": "closed_arith_%d" % n, "shape": "closed-arith", "theory": "nat", "vars": {}, "prop": prop, "script": [],
+            "shape_ok": lambda st: True}
+
+
+GENERATORS = [gen_sibling_binders, gen_exists_twice, gen_cut_merged, gen_walk, gen_exists_nested, gen_intro_known, gen_redex_fact,
+              gen_closed_arith]
+
+
+def make_session(rnd, n):
+    sess = GENERATORS[n % len(GENERATORS)](rnd, n)
+    sess.setdefault("theory", "logic")
+    return sess
+
+
 def run_sessions(out, rnd, nsess):
-    """generated editing sessions in theory logic; a session whose step raises ends there (the property is conditional)"""
-    basic.load_theory("logic")
-    gens = [gen_sibling_binders, gen_exists_twice, gen_cut_merged, gen_walk]
+    """generated editing sessions (theory logic / nat); a session whose step raises ends there (the property is conditional)"""
     for n in range(nsess):
-        sess = gens[n % len(gens)](rnd, n)
+        sess = make_session(rnd, n)
+        basic.load_theory(sess["theory"])
         item = GenItem(sess["name"], sess["vars"])
         extra = {"session": sess["name"], "shape": sess["shape"], "done": False, "shape_ok": False}
         try:
             context.set_context(None, vars=item.vars)
             state = server.parse_init_state(sess["prop"])
         except Exception as e:
-            sys.stderr.write("session %s: goal not stated: %s\n" % (sess["name"], e))
+            sys.stderr.write("session %s: goal not stated: %s %s\n" % (sess["name"], sess["prop"], e))
             continue
         goal = sid(state.prf.items[-1].th)
+        if not sess["script"]:
+            extra["done"], extra["shape_ok"] = True, True
         edit_event(out, "gen", item, goal, state, 0, "init", {}, None, extra)
-        completed = True
+        extra = dict(extra, done=False, shape_ok=False)
         for idx, (mk, route) in enumerate(sess["script"], 1):
             context.set_context(None, vars=item.vars)
             step = mk(state)
             if step is None:
-                completed = False
+                sys.stderr.write("session %s step %d: not applicable\n" % (sess["name"], idx))
                 break
             last = idx == len(sess["script"])
             route = route or rnd.choice(["live", "copy"])
@@ -546,7 +687,6 @@ def run_sessions(out, rnd, nsess):
                 trial, before, after, err = apply_on_copy(state, step)
                 if trial is None:
                     sys.stderr.write("session %s step %d raised: %r\n" % (sess["name"], idx, err))
-                    completed = False
                     break
                 state, info = trial, (before, after)
             else:
@@ -556,18 +696,16 @@ def run_sessions(out, rnd, nsess):
                     state.check_proof(compute_only=True)
                 except Exception as err:
                     sys.stderr.write("session %s step %d raised: %r\n" % (sess["name"], idx, err))
-                    state, completed = keep, False
+                    state = keep
                     break
                 info = None
             ex = dict(extra)
             if last:
                 ex["done"], ex["shape_ok"] = True, bool(sess["shape_ok"](state))
             edit_event(out, "gen", item, goal, state, idx, route, step, info, ex)
-        if completed and not sess["script"]:
-            pass
         # seeded random walks from wherever the session got to
         context.set_context(None, vars=item.vars)
-        random_walks(out, "gen", item, goal, state, len(sess["script"]) + 1, rnd, nwalks=2 if sess["shape"] == "walk" else 1,
+        random_walks(out, "gen", item, goal, state, len(sess["script"]) + 1, rnd, nwalks=2 if sess["shape"] in ("walk", "closed-arith") else 1,
                      maxdepth=4, extra=extra)
 
 
@@ -697,8 +835,9 @@ def run_suggest(out, theories, rnd, n_per):
                               "key": "search:%s.%s#%d" % (thname, item.name, idx)})
                     continue
                 for r in res[:10]:
-                    suggest_event(out, thname, item, state, idx, gid, r, step if recorded else None)
+                    suggest_event(out, thname, item, state, idx, gid, r, step if recorded else None, rnd)
             context.set_context(None, vars=item.vars)
+            RECHECK_BEFORE.clear()           # the state object is edited in place
             try:
                 method.apply_method(state, step)
                 state.check_proof(compute_only=True)
@@ -706,10 +845,120 @@ def run_suggest(out, theories, rnd, n_per):
                 break
 
 
+def random_query(state, rnd, gaps_as_facts=0.3):
+    """a seeded choice of goal line and fact lines: an open gap, 0-2 lines visible from it (now and then a gap: a cut is used
+    as a fact by the lines after it)"""
+    gaps = gaps_of(state)
+    if not gaps:
+        return None
+    g = rnd.choice(gaps)
+    facts = [it for it in flat(state.prf) if it.th is not None and it.rule != "variable" and g.id.can_depend_on(it.id)
+             and (it.rule != "sorry" or rnd.random() < gaps_as_facts)]
+    return str(g.id), [str(f.id) for f in rnd.sample(facts, min(len(facts), rnd.choice([0, 1, 1, 2])))]
+
+
+def query_state(out, item, state, idx, rnd, queries):
+    """every suggestion of every query applied on a copy; returns the states reached by the successful ones"""
+    reached = []
+    for gid, fids, rec in queries:
+        context.set_context(None, vars=item.vars)
+        try:
+            res = state.search_method(gid, fids)
+        except Exception as e:
+            out.emit({"kind": "search_fail", "thm": "gen.%s" % item.name, "step": idx, "exc": type(e).__name__,
+                      "key": "search:gen.%s#%d" % (item.name, idx)})
+            continue
+        for r in res[:10]:
+            t = suggest_event(out, "gen", item, state, idx, gid, r, rec, rnd)
+            if t is not None:
+                reached.append(t)
+    return reached
+
+
+def run_suggest_sessions(out, rnd, nsess):
+    """generated states: along every generated editing session (the sessions of mode edit), and along a search-driven walk from
+    its end, search_method on the scripted and on seeded other selections; every suggestion applied on a copy"""
+    for n in range(nsess):
+        sess = make_session(rnd, n)
+        basic.load_theory(sess["theory"])
+        item = GenItem(sess["name"], sess["vars"])
+        try:
+            context.set_context(None, vars=item.vars)
+            state = server.parse_init_state(sess["prop"])
+        except Exception as e:
+            sys.stderr.write("session %s: goal not stated: %s\n" % (sess["name"], e))
+            continue
+        idx = 0
+        for mk, _ in sess["script"]:
+            context.set_context(None, vars=item.vars)
+            step = mk(state)
+            if step is None:
+                break
+            queries = [(step["goal_id"], list(step["fact_ids"]), step)]
+            q = random_query(state, rnd)
+            if q and (q[0], q[1]) != (queries[0][0], queries[0][1]):
+                queries.append((q[0], q[1], None))
+            query_state(out, item, state, idx, rnd, queries)
+            context.set_context(None, vars=item.vars)
+            RECHECK_BEFORE.clear()           # the state object is edited in place
+            try:
+                method.apply_method(state, step)
+                state.check_proof(compute_only=True)
+            except Exception:
+                break
+            idx += 1
+        # search-driven walk: the next state is one reached by a suggestion
+        for d in range(3):
+            qs = [q for q in (random_query(state, rnd), random_query(state, rnd)) if q]
+            if not qs:
+                break
+            reached = query_state(out, item, state, idx, rnd, [(q[0], q[1], None) for q in dict.fromkeys((q[0], tuple(q[1])) for q in qs)])
+            if not reached:
+                break
+            state = rnd.choice(reached)
+            idx += 1
+
+
 RECHECK_BEFORE = {}
 
 
-def suggest_event(out, thname, item, state, idx, gid, r, rec_step):
+def fresh_names(state, gid, n, stem="s"):
+    used = set(state.get_vars(gid))
+    out, i = [], 0
+    while len(out) < n:
+        if "%s%d" % (stem, i) not in used:
+            out.append("%s%d" % (stem, i))
+        i += 1
+    return out
+
+
+def supply_params(state, gid, r, mname, open_params, rnd):
+    """the declared parameters a suggestion leaves open, supplied from the state (names: fresh ones, as many as the fact has
+    leading existential quantifiers or fewer; terms: a visible variable of the bound variable's type); None = cannot supply"""
+    out = {}
+    for p in open_params:
+        try:
+            if mname == "exists_elim" and p == "names":
+                t, d = state.get_proof_item(ItemID(r["fact_ids"][0])).th.prop, 0
+                while t.is_exists():
+                    t, d = t.arg.body, d + 1
+                out[p] = ", ".join(fresh_names(state, gid, rnd.randint(1, d)))
+            elif mname in ("forall_elim", "inst_exists_goal") and p == "s":
+                src = state.get_proof_item(ItemID(r["fact_ids"][0] if mname == "forall_elim" else gid)).th.prop
+                pool = sorted(nm for nm, T in state.get_vars(gid).items() if T == src.arg.var_T)
+                if not pool:
+                    return None
+                out[p] = rnd.choice(pool)
+            else:
+                return None
+        except Exception:
+            return None
+    return out
+
+
+def suggest_event(out, thname, item, state, idx, gid, r, rec_step, rnd=None, more=None):
+    """one suggestion applied on a copy; returns the new state when that succeeded.  `more` = further named parameters asked
+    for by a first application (then this is the second application, with them supplied)"""
     context.set_context(None, vars=item.vars)
     mname = r["method_name"]
     sig = list(method.global_methods[mname].sig)
@@ -718,13 +967,21 @@ def suggest_event(out, thname, item, state, idx, gid, r, rec_step):
     st.update({"method_name": mname, "goal_id": gid, "fact_ids": list(r.get("fact_ids", []))})
     open_params = [p for p in sig if p not in given]
     supplied_from = "none"
+    result = None
+    if more:
+        st.update(more)
+        supplied_from = "asked-then-generated"
     if open_params:
+        gen = None
         if rec_step is not None and rec_step["method_name"] == mname and all(rec_step.get(k) == v for k, v in given.items()) \
-                and list(rec_step.get("fact_ids", []) or []) == st["fact_ids"]:
+                and list(rec_step.get("fact_ids", []) or []) == st["fact_ids"] and all(p in rec_step for p in open_params):
             for k, v in rec_step.items():
                 if k not in st:
                     st[k] = v
             supplied_from = "recorded"
+        elif rnd is not None and (gen := supply_params(state, gid, r, mname, open_params, rnd)) is not None:
+            st.update(gen)
+            supplied_from = "generated"
         else:
             supplied_from = "unsupplied"
     before_gaps = [[ids(it.id), sid(it.th), tid_of(it.th.prop)] for it in flat(state.prf) if it.rule == "sorry"]
@@ -742,6 +999,7 @@ def suggest_event(out, thname, item, state, idx, gid, r, rec_step):
             method.apply_method(trial, st)
             trial.check_proof(compute_only=True)
             ev["outcome"] = "success"
+            result = trial
             old = sorted(g[1] for g in before_gaps)
             goal_sid = [g[1] for g in before_gaps if g[0] == ids(gid)]
             rest = list(old)
@@ -784,8 +1042,21 @@ def suggest_event(out, thname, item, state, idx, gid, r, rec_step):
             ev["exc"] = type(e).__name__ + ": " + str(e)[:120]
             ev.update({"query": [], "query_other": [], "new_gaps": [], "after_props": [], "before_props": []})
     ev["orig_unchanged"] = lines_of(state) == before_lines
-    ev["key"] = "%s#%d:%s<-%s:%s:%s" % (ev["thm"], idx, gid, ",".join(ev["fact_ids"]), mname, json.dumps(given, sort_keys=True, default=str)[:80])
+    ev["key"] = "%s#%d:%s<-%s:%s:%s%s" % (ev["thm"], idx, gid, ",".join(ev["fact_ids"]), mname, json.dumps(given, sort_keys=True, default=str)[:80],
+                                         "+asked" if more else "")
+    ev["supplied"] = {k: str(v) for k, v in st.items() if k not in given and k not in ("method_name", "goal_id", "fact_ids")}
     out.emit(ev)
+    # "succeeds or asks for further named parameters": introduction asks for the names of the variables it introduces; with
+    # fresh names supplied the suggestion is applied again
+    if rnd is not None and not more and ev["outcome"] == "query" and ev["query_other"] == ["names"] and mname == "introduction":
+        try:
+            t, d = state.get_proof_item(ItemID(gid)).th.prop, 0
+            while t.is_forall():
+                t, d = t.arg.body, d + 1
+            return suggest_event(out, thname, item, state, idx, gid, r, rec_step, rnd, more={"names": ", ".join(fresh_names(state, gid, d, "n"))})
+        except Exception as e:
+            sys.stderr.write("introduction follow-up skipped: %r\n" % e)
+    return result
 
 
 if __name__ == "__main__":
@@ -806,5 +1077,7 @@ if __name__ == "__main__":
             run_sessions(out, random.Random(seed_ + 1), int(sys.argv[6]))
     else:
         run_suggest(out, theories, rnd, n_per)
+        if len(sys.argv) > 6 and int(sys.argv[6]) > 0:
+            run_suggest_sessions(out, random.Random(seed_ + 1), int(sys.argv[6]))
     out.f.close()
     print(mode, "events", out.tid)
